@@ -9,6 +9,7 @@ asn1f_fix_enum(arg_t *arg) {
 	asn1p_expr_t *ev;
 	asn1c_integer_t max_value = -1;
 	asn1c_integer_t max_value_ext = -1;
+	int have_value_ext = 0;	/* max_value_ext is meaningful */
 	int rvalue = 0;
 	asn1p_expr_t *ext_marker = NULL;	/* "..." position */
 	int ret;
@@ -112,8 +113,9 @@ asn1f_fix_enum(arg_t *arg) {
 		 * the values must be ordered.
 		 */
 		if (ext_marker) {
-			if (eval > max_value_ext) {
+			if (!have_value_ext || eval > max_value_ext) {
 				max_value_ext = eval;
+				have_value_ext = 1;
 			} else {
                 char max_value_buf[128];
                 asn1p_itoa_s(max_value_buf, sizeof(max_value_buf),
